@@ -5,6 +5,7 @@
 // https://opensource.org/licenses/MIT.
 
 use std::error::Error;
+use std::io::{self, stderr, Write};
 
 use super::{FileType, Follow, Matcher, MatcherIO, WalkEntry};
 
@@ -63,7 +64,7 @@ impl XtypeMatcher {
 }
 
 impl Matcher for XtypeMatcher {
-    fn matches(&self, file_info: &WalkEntry, _: &mut MatcherIO) -> bool {
+    fn matches(&self, file_info: &WalkEntry, matcher_io: &mut MatcherIO) -> bool {
         let follow = if file_info.follow() {
             Follow::Never
         } else {
@@ -79,6 +80,18 @@ impl Matcher for XtypeMatcher {
             Ok(file_type) if file_type == self.file_type => true,
             // Since GNU find 4.10, ELOOP will match -xtype l
             Err(e) if self.file_type.is_symlink() && e.is_loop() => true,
+            Err(e) if !e.is_not_found() && !e.is_loop() => {
+                // What the link refers to could not be examined: the entry was
+                // not tested.
+                let _ = writeln!(
+                    &mut stderr(),
+                    "Error: {}: {}",
+                    file_info.path().display(),
+                    io::Error::from(&e)
+                );
+                matcher_io.set_exit_code(1);
+                false
+            }
             _ => false,
         }
     }
